@@ -162,7 +162,13 @@ class TypeObject:
                         if not isinstance(subresult, CanAssignError):
                             result = subresult
                             break
-            if not isinstance(result, CanAssignError):
+            # A positive result obtained while an enclosing check is still assuming
+            # some other compatibility may rest on that assumption, which can yet
+            # turn out to be false; only cache results that stand on their own.
+            if (
+                not isinstance(result, CanAssignError)
+                and not ctx.has_assumed_compatibilities()
+            ):
                 self._protocol_positive_cache[cache_key] = result
             return result
 
